@@ -81,6 +81,37 @@ async fn verif_replay_hist_lifecycle() {
         let _ = engine.executor().act().back(&id, &a2, &v2); wait().await;
         let s2 = verif_snapshot(&proc); verif_compare(&mut bad, "C", "back(a2 -> step1)", &s1, &s2);
     }
+    // ---- scenario D: a lifecycle-hook act (on: completed) is still open beneath its completed step; `back` from it
+    {
+        let workflow = Workflow::new().with_id("verif_d")
+            .with_step(|s| s.with_id("step1").with_act(Act::irq(|a| a.with_key("a1"))))
+            .with_step(|s| s.with_id("step2")
+                .with_setup(|setup| { use crate::model::StmtBuild; setup.add(Act::irq(|a| a.with_key("h1")).with_on(crate::ActEvent::Completed)) })
+                .with_act(Act::irq(|a| a.with_key("a2"))))
+            .with_step(|s| s.with_id("step3").with_act(Act::irq(|a| a.with_key("a3"))));
+        let config = ConfigData { keep_processes: Some(true), ..ConfigData::default() };
+        let id = utils::longid();
+        let (engine, proc, _sig) = create_proc_signal_config::<Vec<String>>(&config, &workflow, &id).await;
+        let tids = Arc::new(Mutex::new(std::collections::HashMap::<String, String>::new()));
+        let t1 = tids.clone();
+        engine.channel().on_message(move |e| {
+            if e.is_irq() && e.is_state(MessageState::Created) { t1.lock().unwrap().insert(e.key.clone(), e.tid.clone()); }
+        });
+        engine.runtime().launch(&proc);
+        wait().await;
+        let get = |k: &str| tids.lock().unwrap().get(k).cloned();
+        let _ = engine.executor().act().complete(&id, &get("a1").unwrap(), &Vars::new()); wait().await;
+        let _ = engine.executor().act().complete(&id, &get("a2").unwrap(), &Vars::new()); wait().await;
+        match get("h1") {
+            Some(h1) => {
+                let s1 = verif_snapshot(&proc);
+                let mut v = Vars::new(); v.set("to", "step1");
+                let r = engine.executor().act().back(&id, &h1, &v); wait().await;
+                let s2 = verif_snapshot(&proc); verif_compare(&mut bad, "D", &format!("back(h1 -> step1) = {r:?}"), &s1, &s2);
+            }
+            None => println!("scenario D: hook act h1 was not created; tree=\n{}", proc.tree_output()),
+        }
+    }
     for b in bad.iter() { println!("{b}"); }
     assert!(bad.is_empty(), "{} lifecycle violation(s)", bad.len());
 }
